@@ -391,13 +391,19 @@ func (s *Syncer) handleRPC(id types.Specifier, stream *gateway.Stream, origin *P
 		bid := r.Block.ID(cs)
 		if _, ok := s.cm.State(bid); ok {
 			return nil // already seen
-		} else if bid.CmpWork(cs.PoWTarget()) < 0 {
-			return s.ban(origin, errors.New("peer sent v2 outline with insufficient work"))
 		} else if r.Block.ParentID != s.cm.Tip().ID {
 			// block extends a sidechain, which peer (if honest) believes to be the
 			// heaviest chain
+			//
+			// NOTE: this must be decided before the work check. An outline's ID
+			// commits to the parent's full state, but for a parent we only know
+			// by header (a sidechain) the stored state is header-only, so the ID
+			// computed above is not the block's; judging its work would ban an
+			// honest peer.
 			s.resync(origin, "peer relayed a v2 outline that does not attach to our tip")
 			return nil
+		} else if bid.CmpWork(cs.PoWTarget()) < 0 {
+			return s.ban(origin, errors.New("peer sent v2 outline with insufficient work"))
 		}
 		log.Debug("received v2 block outline", zap.Stringer("blockID", bid), zap.Stringer("origin", origin))
 		// block has sufficient work and attaches to our tip, but may be missing
